@@ -95,6 +95,12 @@ def tpFrames (p len dst : Nat) : List QFrame :=
     (N2k.Rx.decode (canId 7 60160 src dst) 8 bytes,
      if k + 1 = npk then some (⟨7, p, src, dst, len, payload⟩ : N2k.Rx.Msg) else none)
 
+/-- both announces, then the data packets alternately (harness `injectTp2`) -/
+def interleave : List QFrame → List QFrame → List QFrame
+  | [], l => l
+  | l, [] => l
+  | a :: as, b :: bs => a :: b :: interleave as bs
+
 /-- engine state: the composed node model, the harness's virtual clock and its hold switches -/
 structure ES where
   n : Node
@@ -182,6 +188,16 @@ def step (s : Option ES) (w : List String) : Option ES × String :=
         | some (es', out) => (some es', out)
         | none => (none, "fault")
       | _, _, _ => (s, "bad-op")
+    | ["tp2", b, pa, la, da, pb, lb, db] => match bid? b, pgn? pa, nat? la, nat? da, pgn? pb, nat? lb, nat? db with
+      | some b, some pa, some la, some da, some pb, some lb, some db =>
+        if isTp pa ∨ isTp pb ∨ la < 9 ∨ la > 223 ∨ lb < 9 ∨ lb > 223 ∨ da > 255 ∨ db > 255 ∨ da = db then (s, "bad-op") else
+        match after es b (interleave (tpFrames pa la da) (tpFrames pb lb db)) true with
+        | some (es', out) => (some es', out)
+        | none => (none, "fault")
+      | _, _, _, _, _, _, _ => (s, "bad-op")
+    | ["clock", ts] => match nat? ts with
+      | some t => if ts.length > 15 ∨ t < es.now then (s, "bad-op") else (some { es with now := t }, "ok")
+      | none => (s, "bad-op")
     | ["fp", b, p, src, len, frames] =>
       match bid? b, pgn? p, nat? src, nat? len, allSome ((frames.splitOn ",").map byte?) with
       | some b, some p, some src, some len, some fr =>
